@@ -372,8 +372,9 @@ inductive Thread where
   (`fails`) the inner reader broke with a non-EOF error after some bytes / the caller closed it early – the
   fill pipe is closed WITH the error, `cache.Set` fails, nothing is cached, the caller got an error. -/
   | get (id : Nat) (fails : Bool) (pc : GetPc) (snap : Option Nat)
-  /-- DeletePart(id): pc 0 inner delete, pc 1 after-commit hook: `cache.Remove`. -/
-  | delete (id : Nat) (pc : Nat)
+  /-- DeletePart(id): pc 0 inner delete, pc 1 `cache.Remove` (after-commit hook, or directly without a
+  transaction). `cacheFirst` is the other order: the cache entry is removed first, then the inner store deletes. -/
+  | delete (id : Nat) (cacheFirst : Bool) (pc : Nat)
   deriving DecidableEq, Repr
 
 structure St where
@@ -407,9 +408,11 @@ def stepThread (s : St) : Thread → St × Thread
       else ({ s with cache := insert s.cache id v, returned := (id, some v) :: s.returned }, .get id fl .done sn)
     | none => (s, .get id fl .done sn)
   | .get id fl .done sn => (s, .get id fl .done sn)
-  | .delete id 0 => ({ s with inner := erase s.inner id }, .delete id 1)
-  | .delete id 1 => ({ s with cache := erase s.cache id }, .delete id 2)
-  | .delete id pc => (s, .delete id pc)
+  | .delete id cf 0 =>
+    if cf then ({ s with cache := erase s.cache id }, .delete id cf 1) else ({ s with inner := erase s.inner id }, .delete id cf 1)
+  | .delete id cf 1 =>
+    if cf then ({ s with inner := erase s.inner id }, .delete id cf 2) else ({ s with cache := erase s.cache id }, .delete id cf 2)
+  | .delete id cf pc => (s, .delete id cf pc)
 
 def step (s : St) (i : Nat) : St :=
   match s.threads[i]? with
